@@ -635,6 +635,23 @@ def r12(R):
     R.ob("C05-R12", "accept-only-after-all-excluded", "the evaluator lets a filter pass by default only after all six operators were excluded on that path", ok,
          where=b.where(), detail=None if ok else "a path that tested only {%s} reaches the next filter / `true`: operators %s are accepted without any comparison"
          % (", ".join(sorted(worst[0])), sorted(OPS6 - set(worst[0]))))
+    # identifiers are compared only between two bound variables: the right-hand identifier comes from the bindings, never from a dictionary lookup of
+    # the filter's constant (`18` and `18.0` are different terms but the same number)
+    names = [b.local_name(i) for i in range(1, b.nargs + 1)]
+    from lib import pipeline as P
+    badid = []
+    for bb, i, pl, rv, st in b.assigns():
+        if rv["rv"] == "binop" and rv["op"] in ("Eq", "Ne") and "u32" in (b.local_ty((F.op_place(rv["a"]) or {"l": 0})["l"]) + b.local_ty((F.op_place(rv["b"]) or {"l": 0})["l"])):
+            for o in (rv["a"], rv["b"]):
+                q = F.op_place(o)
+                if q is None:
+                    continue
+                d = P.derives(prog, b, q["l"])
+                if any(t[0] in ("param", "field") and str(t[1]).split(".")[0] == "dict" for t in d):
+                    badid.append(st.get("ln") if isinstance(st, dict) else None)
+    R.ob("C05-R12", "ids-from-bindings", "evaluate_filters compares dictionary ids only when both come from the bindings", not badid, where=b.where(badid[0] if badid else None),
+         detail=None if not badid else "an id looked up in the dictionary for the filter's constant is compared with the bound term's id: numerically equal values "
+         "with different spellings (`18` / `18.0`) are different terms")
     # no default number for a value that is not a number
     bad = []
     for c in b.calls():
